@@ -145,21 +145,18 @@ def position_rule(ctx, rule_id, sites, roles, label):
     seen = {}
     unclassified = 0
     for s in sites:
-        role = None
-        for pat, allowed, name, req in roles:
-            if has(s.data, *pat):
-                role = (pat, allowed, name, req)
-                break
-        if role is None:
+        matched = [r for r in roles if has(s.data, *r[0])]
+        if not matched:
             unclassified += 1
             continue
-        pat, allowed, name, req = role
-        seen.setdefault(name, set()).update(s.members)
-        ok = bool(s.members) and s.members <= set(allowed)
-        ctx.ob(rule_id, '{}|{}|{}'.format(label, name, '/'.join(
-            sorted(s.members)) or 'unknown'), ok, s.eff.call,
-            '{} is written with Syntax.{} (expected one of {})'.format(
-                name, '/'.join(sorted(s.members)) or '?', sorted(allowed)))
+        for pat, allowed, name, req in matched:
+            seen.setdefault(name, set()).update(s.members)
+            ok = bool(s.members) and s.members <= set(allowed)
+            ctx.ob(rule_id, '{}|{}|{}'.format(label, name, '/'.join(
+                sorted(s.members)) or 'unknown'), ok, s.eff.call,
+                '{} is written with Syntax.{} (expected one of {})'.format(
+                    name, '/'.join(sorted(s.members)) or '?',
+                    sorted(allowed)))
     for pat, allowed, name, req in roles:
         if req is None:
             continue
@@ -398,9 +395,17 @@ def write_flow(ctx, syn_mod, shelly_members, has_escape=True,
     # (5) jbos
     rec = [e for e in _cls_effects(F, W, lambda e: e.name == 'write')
            if param_of(e.recv(), 'self') and _e_under_type(F, e, 'jbos')]
+    def accumulated(c):
+        p = getattr(c, '_parent', None)
+        return isinstance(p, ast.AugAssign) and isinstance(
+            p.op, ast.BitOr) or isinstance(p, ast.BinOp) and isinstance(
+                p.op, ast.BitOr) or isinstance(p, ast.BoolOp) and isinstance(
+                    p.op, ast.Or) or (isinstance(p, ast.Call) and
+                                      Q.callee_attr(p) in ('any', 'append'))
     ok = bool(rec) and all(
         has(e.arg(0), 'bits') and param_of(e.arg(1), 'syntax') and
-        param_of(e.arg(2, kw='shell_quote'), 'shell_quote') for e in rec)
+        param_of(e.arg(2, kw='shell_quote'), 'shell_quote') and
+        accumulated(e.call) for e in rec)
     ctx.ob(R, short + '|jbos-recursion', ok, W.node,
            'jbos bits are not each written with self.write(bit, syntax, '
            'shell_quote)')
@@ -542,14 +547,10 @@ def sh_safe(ctx, include_make_recipe=False, rule_id='SH-SAFE'):
                           'quote'.format(new, lexed))
     ctx.ob(R, 'inner_quote_info|quote-replacement', ok, f.node, detail)
     ok = False
-    for r in Q.returns(f.node):
-        if r.value is None:
-            continue
-        a = F.atoms(r.value, f)
-        if has_const(a, '') and has_const(a, True) and any(
-                op == 'Eq' and (has_const(l, '') or has_const(rr, ''))
-                for op, l, rr in F.guard_compares(r, f)):
-            ok = True
+    for n in F.consts(f, lambda v: v is True):
+        if any(op == 'Eq' and (has_const(l, '') or has_const(rr, ''))
+               for op, l, rr in F.guard_compares(n, f)):
+            ok = has_const(F.returns(f), True)
     ctx.ob(R, 'inner_quote_info|empty-string-quoted', ok, f.node,
            "the empty string is not reported as needing quotes ('')")
     ok = False
